@@ -41,7 +41,7 @@ package http1
 //@   ghostset after DoFinish: traceOpen = 0
 //@   top-ensures traceOpen == 0
 //@   loop 0:
-//@     invariant traceOpen == 0 && evDepth == 0
+//@     invariant traceOpen == 0 && evDepth == 0 && !traceStarted
 
 //@ func Server.Serve$1()
 //@   loop 0:
